@@ -674,6 +674,10 @@ def apply_op(resp, model, op, where):
         if op[1] == 'dict':
             arg = dict(pairs)
             pairs = list(arg.items())
+        elif op[1] == 'iter':
+            arg = iter(list(pairs))  # a one-shot iterable of pairs
+        elif op[1] == 'gen':
+            arg = ((n, v) for n, v in list(pairs))
         else:
             arg = pairs
         resp.set_headers(arg)
@@ -909,7 +913,7 @@ _op = st.one_of(
     st.builds(lambda n: ['delete', n], _hname),
     st.builds(lambda n, d: ['get', n, d], _hname, st.one_of(st.none(), _ascii_val)),
     st.just(['headers']),
-    st.builds(lambda k, p: ['set_headers', k, p], st.sampled_from(['dict', 'list']), _pairs),
+    st.builds(lambda k, p: ['set_headers', k, p], st.sampled_from(['dict', 'list', 'iter', 'gen']), _pairs),
     _prop_set,
     _prop_set,
     st.builds(lambda p: ['prop_none', p], _prop),
@@ -1133,7 +1137,7 @@ _utext = st.one_of(
 _fname = st.one_of(
     st.text(alphabet=st.characters(blacklist_categories=('Cs',)), min_size=1, max_size=10),
     st.lists(st.sampled_from(['report', '.pdf', ' ', 'é', '€', '\U0001F600', '%', '%41', '"', '/', '\\', ';',
-                              '.', '_', 'Å', '１']), min_size=1, max_size=6).map(''.join),
+                              '.', '_', 'Å', '１', '\u0663', '\u0968', '\u0e52', '\u00df', '\u00f8', '\u4e2d', '\u00bd']), min_size=1, max_size=6).map(''.join),
 )
 
 
